@@ -166,6 +166,14 @@ package federation
 //@ iface API.CollectionList
 //@   modifies nothing
 //@ func Conn.generated_CollectionList$1 property C20 safety -bounds
+//@   # the merge - looking at what has been merged so far included - happens under
+//@   # the mutex, which is taken exactly once on every path that merges and given
+//@   # back only when the callback returns (the per-cluster workers run concurrently)
+//@   ghost nlock int = 0
+//@   calls Mutex.Lock#*: set nlock = nlock + 1
+//@   calls Mutex.Lock#1: requires berr == nil && len(merged.Items) == m0
+//@   ensures berr == nil ==> nlock == 1
+//@   at assign uuids#1: assert nlock == 1
 //@   ghost berr error = nil
 //@   ghost m0 int = 0
 //@   calls API.CollectionList#1: requires $recv == backend && $1.ForwardedFor == conn.cluster.ClusterID + "-" + old(options.ForwardedFor)
